@@ -727,6 +727,17 @@ pub fn run(tier: &str) -> i32 {
             v.push(("a$|||b".into(), "(a $||) | b".into(), vec![bit, boolk]));
             v.push(("a$||||b".into(), "(a $||) || b".into(), vec![bit, boolk]));
             v.push(("a$||b".into(), "(a $||)\n b".into(), vec![bit, boolk]));
+            // tokens written apart stay apart: `$` followed by white space (or a comment) and a prefix
+            // operator is `$ init` with the prefixed operand as the initial value, not a reducer
+            if let Some(fn2) = all.iter().find(|k| k.name == "(int,int)->int") {
+                for (pre, kind) in [("*", cell), ("-", int), ("!", int)] {
+                    for gap in [" ", "  ", "\n", "/**/", " /* c */ "] {
+                        v.push((format!("a ${gap}{pre}b c"), format!("a $ ({pre}b) c"), vec![it, kind, fn2]));
+                        v.push((format!("a${gap}{pre}b c"), format!("a $ ({pre}b) c"), vec![it, kind, fn2]));
+                        v.push((format!("1 + a ${gap}{pre}b c"), format!("1 + (a $ ({pre}b) c)"), vec![it, kind, fn2]));
+                    }
+                }
+            }
             v.push(("a<-b".into(), "a < (-b)".into(), vec![int, int]));
             v.push(("a>-b".into(), "a > (-b)".into(), vec![int, int]));
             v.push(("a--b".into(), "a - (-b)".into(), vec![int, int]));
